@@ -66,6 +66,54 @@ pub struct Plan<'s> {
     pub required: bool,
     /// see `Ctx::trunc_sub`
     pub trunc_sub: bool,
+    pub ext: PlanExt,
+}
+
+/// one kind of interaction: a method of a tree trait or a call of an opaque closure parameter
+#[derive(Clone, Debug)]
+pub struct EffectSig {
+    /// Lean constructor of the program type (its last argument is the continuation)
+    pub ctor: String,
+    pub params: Vec<Ty>,
+    pub ret: Ty,
+    /// the answer is a style seen through this trait (`get_core_container_style` ↦ `CoreStyle`)
+    pub ret_view: Option<String>,
+}
+
+/// translation in interaction form: calls of the tree's trait methods and of opaque closure parameters become the
+/// constructors of an interaction-program type (generated per module by `prog_inductive`, the shape of the hand-written
+/// `ProgM`), in the order the Rust performs them
+#[derive(Clone, Debug, Default)]
+pub struct ProgPlan {
+    /// the program type without its result type, e.g. `Gen.Tree.Prog α NodeId`, and its namespace, e.g. `Gen.Tree.Prog`
+    /// (`<ns>.ret`, `<ns>.unreachable`, `<ns>.bind`, one constructor per interaction)
+    pub ty_lean: String,
+    pub ns_lean: String,
+    /// type variables the program type mentions (`NodeId`)
+    pub type_vars: Vec<String>,
+    /// the parameter that is the tree (`tree`, or `self` in a provided method of a tree trait)
+    pub tree_param: Option<String>,
+    /// the generic type of the tree parameter (`Tree` in `tree: &mut Tree`)
+    pub tree_generic: Option<String>,
+    /// trait methods of the tree ↦ queries
+    pub tree_methods: HashMap<String, EffectSig>,
+    /// registry head under which provided methods of the tree traits are registered (`perform_child_layout`)
+    pub tree_head: String,
+    /// opaque closure parameters ↦ queries
+    pub closures: HashMap<String, EffectSig>,
+    /// closure parameters that take the tree as their first argument: sub-programs
+    pub monadic_closures: Vec<String>,
+}
+
+#[derive(Clone, Debug, Default)]
+pub struct PlanExt {
+    /// closure parameters that are not translated (beside the name `calc`)
+    pub dropped_params: Vec<String>,
+    pub prog: Option<ProgPlan>,
+    /// generic type parameters of the function that no instantiation is given for stay abstract (`{R : Type}`)
+    pub type_vars: bool,
+    /// appended to the generated doc comment
+    pub doc: Option<String>,
 }
 
 pub struct Out {
@@ -149,14 +197,117 @@ impl Out {
     }
 }
 
+/// what a closure parameter stands for
+enum ClosureRole {
+    /// not translated (`calc`)
+    Dropped,
+    /// every call is a query of the interaction program (the user's measure function)
+    Query,
+    /// takes the tree as its first argument: a sub-program (`compute_uncached`)
+    SubProgram,
+    /// a pure function value (`Size::map`'s `f`)
+    Pure,
+}
+
+fn strip_ref(t: &syn::Type) -> &syn::Type {
+    match t {
+        syn::Type::Reference(r) => strip_ref(&r.elem),
+        syn::Type::Paren(p) => strip_ref(&p.elem),
+        syn::Type::Group(p) => strip_ref(&p.elem),
+        t => t,
+    }
+}
+
+fn fn_family<'s>(bounds: impl Iterator<Item = &'s syn::TypeParamBound>) -> Option<&'s syn::ParenthesizedGenericArguments> {
+    for b in bounds {
+        if let syn::TypeParamBound::Trait(tb) = b {
+            let seg = tb.path.segments.last().unwrap();
+            if ["Fn", "FnOnce", "FnMut"].contains(&seg.ident.to_string().as_str()) {
+                if let syn::PathArguments::Parenthesized(pa) = &seg.arguments {
+                    return Some(pa);
+                }
+            }
+        }
+    }
+    None
+}
+
+/// the names of the traits in `impl A + B` (behind references)
+pub fn impl_traits(t: &syn::Type) -> Option<Vec<String>> {
+    match strip_ref(t) {
+        syn::Type::ImplTrait(it) => Some(
+            it.bounds
+                .iter()
+                .filter_map(|b| match b {
+                    syn::TypeParamBound::Trait(tb) => Some(tb.path.segments.last().unwrap().ident.to_string()),
+                    _ => None,
+                })
+                .collect(),
+        ),
+        _ => None,
+    }
+}
+
+/// the `Fn*(A, B) -> R` bound of a parameter type: `impl Fn(..) -> ..` in parameter position, or a generic `F` bounded inline or
+/// in the where clause
+pub fn fn_bound<'s>(sig: &'s syn::Signature, ty: &'s syn::Type) -> Option<&'s syn::ParenthesizedGenericArguments> {
+    match strip_ref(ty) {
+        syn::Type::ImplTrait(it) => fn_family(it.bounds.iter()),
+        syn::Type::Path(p) if p.qself.is_none() && p.path.get_ident().is_some() => {
+            let g = p.path.get_ident().unwrap();
+            for gp in &sig.generics.params {
+                if let syn::GenericParam::Type(tp) = gp {
+                    if tp.ident == *g {
+                        if let Some(x) = fn_family(tp.bounds.iter()) {
+                            return Some(x);
+                        }
+                    }
+                }
+            }
+            if let Some(wc) = &sig.generics.where_clause {
+                for pr in &wc.predicates {
+                    if let syn::WherePredicate::Type(pt) = pr {
+                        if norm(&pt.bounded_ty) == g.to_string() {
+                            if let Some(x) = fn_family(pt.bounds.iter()) {
+                                return Some(x);
+                            }
+                        }
+                    }
+                }
+            }
+            None
+        }
+        _ => None,
+    }
+}
+
+/// the style traits whose getters `Generated/Style.lean` translates for `Style`
+pub const STYLE_TRAITS: &[&str] = &["CoreStyle", "BlockContainerStyle", "BlockItemStyle", "FlexboxContainerStyle", "FlexboxItemStyle", "GridContainerStyle", "GridItemStyle"];
+
 pub fn translate_fn(w: &World, p: &Plan, ns: &str) -> R<(String, FnSig)> {
     let mut cx = Ctx::new(w, p.self_ty.clone(), p.generics.clone());
     cx.trunc_sub = p.trunc_sub;
+    cx.prog = p.ext.prog.clone();
+    let prog = p.ext.prog.as_ref();
+    // generic type parameters of the function itself: closure types (`F: Fn(..) -> ..`) and the tree's type are not type
+    // variables of the Lean definition; anything else that the caller has not instantiated stays abstract
     for g in &p.sig.generics.params {
         if let syn::GenericParam::Type(t) = g {
-            if !p.generics.contains_key(&t.ident.to_string()) {
+            let name = t.ident.to_string();
+            if p.generics.contains_key(&name) {
+                continue;
+            }
+            let as_ty: syn::Type = syn::parse_str(&name).map_err(|e| e.to_string())?;
+            if fn_bound(p.sig, &as_ty).is_some() {
+                continue;
+            }
+            if prog.and_then(|pp| pp.tree_generic.as_ref()) == Some(&name) {
+                continue;
+            }
+            if !p.ext.type_vars {
                 return Err(format!("generic parameter {}", t.ident));
             }
+            cx.generics.insert(name.clone(), Ty::Var(name));
         }
     }
     let mut params: Vec<(String, Ty)> = vec![];
@@ -165,15 +316,15 @@ pub fn translate_fn(w: &World, p: &Plan, ns: &str) -> R<(String, FnSig)> {
     let mut mut_self = false;
     let mut dropped = 0usize;
     let mut mut_first = false;
+    let prog_ty = |w: &World, pp: &ProgPlan, t: &Ty| format!("{} {}", pp.ty_lean, w.lean_ty(t));
     for a in &p.sig.inputs {
         match a {
             syn::FnArg::Receiver(r) => {
-                let st = p.self_ty.clone().ok_or("receiver outside an impl")?;
-                if let Ty::Adt(n, _) = &st {
-                    if let Some(AdtKind::Length(_)) = w.adt(n).map(|a| &a.kind) {
-                        // abstract length: only usable through the tag-match shape and calls of translated methods
-                    }
+                if prog.and_then(|pp| pp.tree_param.as_deref()) == Some("self") {
+                    // a provided method of a tree trait: `self` is the tree
+                    continue;
                 }
+                let st = p.self_ty.clone().ok_or("receiver outside an impl")?;
                 has_self = true;
                 mut_self = r.reference.is_some() && r.mutability.is_some();
                 cx.locals.insert("self".into(), (ident("self"), st.clone()));
@@ -184,24 +335,79 @@ pub fn translate_fn(w: &World, p: &Plan, ns: &str) -> R<(String, FnSig)> {
                     Pat::Ident(i) => i.ident.to_string(),
                     _ => return Err("parameter pattern".into()),
                 };
-                if matches!(&*t.ty, syn::Type::ImplTrait(_)) {
-                    if n == "calc" {
-                        dropped += 1;
-                        cx.dropped.push(n);
-                        continue;
-                    }
-                    return Err(format!("parameter `{n}` of `impl Trait` type"));
+                // the tree
+                if prog.and_then(|pp| pp.tree_param.as_ref()) == Some(&n) {
+                    continue;
                 }
+                // closures
+                if let Some(pa) = fn_bound(p.sig, &t.ty) {
+                    let role = if n == "calc" || p.ext.dropped_params.contains(&n) {
+                        ClosureRole::Dropped
+                    } else if prog.map(|pp| pp.closures.contains_key(&n)).unwrap_or(false) {
+                        ClosureRole::Query
+                    } else if prog.map(|pp| pp.monadic_closures.contains(&n)).unwrap_or(false) {
+                        ClosureRole::SubProgram
+                    } else {
+                        ClosureRole::Pure
+                    };
+                    match role {
+                        ClosureRole::Dropped => {
+                            dropped += 1;
+                            cx.dropped.push(n);
+                        }
+                        ClosureRole::Query => {}
+                        ClosureRole::SubProgram => {
+                            let pp = prog.unwrap();
+                            let mut ins: Vec<&syn::Type> = pa.inputs.iter().collect();
+                            if ins.is_empty() || Some(norm(strip_ref(ins[0]))) != pp.tree_generic.clone() {
+                                return Err(format!("closure parameter `{n}`: the first argument is not the tree"));
+                            }
+                            ins.remove(0);
+                            let tys = ins.iter().map(|t| cx.rust_ty(t)).collect::<R<Vec<_>>>()?;
+                            let ret = match &pa.output {
+                                syn::ReturnType::Default => Ty::Unit,
+                                syn::ReturnType::Type(_, t) => cx.rust_ty(t)?,
+                            };
+                            let mut lt: Vec<String> = tys.iter().map(|t| w.lean_ty(t)).collect();
+                            lt.push(prog_ty(w, pp, &ret));
+                            binders.push_str(&format!(" ({} : {})", ident(&n), lt.join(" → ")));
+                            cx.sub_programs.insert(n.clone(), (ident(&n), tys, ret));
+                        }
+                        ClosureRole::Pure => {
+                            if dropped > 0 {
+                                return Err("translated parameter after an untranslated one".into());
+                            }
+                            let tys = pa.inputs.iter().map(|t| cx.rust_ty(t)).collect::<R<Vec<_>>>()?;
+                            let ret = match &pa.output {
+                                syn::ReturnType::Default => Ty::Unit,
+                                syn::ReturnType::Type(_, t) => cx.rust_ty(t)?,
+                            };
+                            let ty = Ty::Fn(tys, Box::new(ret));
+                            cx.locals.insert(n.clone(), (ident(&n), ty.clone()));
+                            binders.push_str(&format!(" ({} : {})", ident(&n), strip_parens(&w.lean_ty(&ty))));
+                            params.push((n, ty));
+                        }
+                    }
+                    continue;
+                }
+                // `&impl CoreStyle`: the getters of that trait as translated for `Style`
+                let ty = match impl_traits(&t.ty) {
+                    Some(trs) if trs.len() == 1 && STYLE_TRAITS.contains(&trs[0].as_str()) => {
+                        cx.views.insert(n.clone(), trs[0].clone());
+                        Ty::adt("Style", vec![])
+                    }
+                    Some(_) => return Err(format!("parameter `{n}` of `impl Trait` type")),
+                    None => cx.rust_ty(&t.ty)?,
+                };
                 if dropped > 0 {
                     return Err("translated parameter after an untranslated one".into());
                 }
-                let ty = cx.rust_ty(&t.ty)?;
                 if ty.has_unknown() {
                     return Err(format!("parameter `{n}`: type not fully determined"));
                 }
                 if let syn::Type::Reference(r) = &*t.ty {
                     if r.mutability.is_some() {
-                        if !params.is_empty() || has_self || !matches!(p.sig.output, syn::ReturnType::Default) {
+                        if !params.is_empty() || has_self || !matches!(p.sig.output, syn::ReturnType::Default) || prog.is_some() {
                             return Err(format!("`&mut` parameter `{n}` (only a first `&mut` parameter of a function returning `()` is in the fragment)"));
                         }
                         mut_first = true;
@@ -227,6 +433,9 @@ pub fn translate_fn(w: &World, p: &Plan, ns: &str) -> R<(String, FnSig)> {
         (true, Ty::Unit) => RetMode::MutSelfUnit,
         (true, _) => RetMode::MutSelfVal,
     };
+    if prog.is_some() && cx.ret != RetMode::Plain {
+        return Err("`&mut self` method in interaction form".into());
+    }
     let lean_ret = match cx.ret {
         RetMode::Plain => ret.clone(),
         RetMode::MutSelfUnit if mut_first => params[0].1.clone(),
@@ -234,7 +443,7 @@ pub fn translate_fn(w: &World, p: &Plan, ns: &str) -> R<(String, FnSig)> {
         RetMode::MutSelfVal => Ty::Tuple(vec![p.self_ty.clone().unwrap(), ret.clone()]),
     };
     let body = cx.body(p.block)?;
-    let mut alpha = w.mentions_alpha(&lean_ret) || params.iter().any(|(_, t)| w.mentions_alpha(t));
+    let mut alpha = w.mentions_alpha(&lean_ret) || params.iter().any(|(_, t)| w.mentions_alpha(t)) || prog.is_some();
     if has_self {
         alpha = alpha || w.mentions_alpha(p.self_ty.as_ref().unwrap());
     }
@@ -244,6 +453,13 @@ pub fn translate_fn(w: &World, p: &Plan, ns: &str) -> R<(String, FnSig)> {
     }
     params.iter().for_each(|(_, t)| t.vars(&mut tvars));
     lean_ret.vars(&mut tvars);
+    if let Some(pp) = prog {
+        for v in &pp.type_vars {
+            if !tvars.contains(v) {
+                tvars.push(v.clone());
+            }
+        }
+    }
     let mut ab = String::new();
     for v in &tvars {
         ab.push_str(&format!(" {{{v} : Type}}"));
@@ -255,10 +471,17 @@ pub fn translate_fn(w: &World, p: &Plan, ns: &str) -> R<(String, FnSig)> {
     if dropped > 0 {
         doc.push_str(" (without the `calc` argument)");
     }
+    if let Some(d) = &p.ext.doc {
+        doc.push_str(d);
+    }
     if cx.used_trunc_sub {
         doc.push_str(" — `usize - usize` is translated as truncated subtraction (`Gen.usizeSubTrunc`): equal to the Rust value wherever no underflow occurs (Rust panics in debug builds / wraps in release builds there)");
     }
-    let text = format!("/-- {doc} -/\ndef {}{ab}{binders} : {} :=\n  {}\n\n", p.lean_rel, strip_parens(&w.lean_ty(&lean_ret)), body.render(2, true));
+    let ret_text = match prog {
+        Some(pp) => prog_ty(w, pp, &lean_ret),
+        None => strip_parens(&w.lean_ty(&lean_ret)),
+    };
+    let text = format!("/-- {doc} -/\ndef {}{ab}{binders} : {} :=\n  {}\n\n", p.lean_rel, ret_text, body.render(2, true));
     let sig = FnSig {
         lean: format!("{ns}.{}", p.lean_rel),
         self_ty: if has_self { p.self_ty.clone() } else { None },
@@ -268,8 +491,32 @@ pub fn translate_fn(w: &World, p: &Plan, ns: &str) -> R<(String, FnSig)> {
         mut_self,
         dropped,
         mut_first,
+        prog: prog.is_some(),
     };
     Ok((text, sig))
+}
+
+/// the interaction-program type of one module: `ret`, `unreachable` (`unreachable!()`), one constructor per interaction
+/// (arguments of the call, then the continuation on the answer), and `bind`.
+/// `params`: the type parameters, e.g. `[("α", "Type"), ("NodeId", "Type")]`; `ctors`: (name, named argument types, answer type)
+pub fn prog_inductive(w: &World, doc: &str, params: &[&str], ctors: &[(String, Vec<(String, Ty)>, Ty)]) -> String {
+    let pb: String = params.iter().map(|p| format!(" ({p} : Type)")).collect();
+    let pi: String = params.iter().map(|p| format!(" {{{p} : Type}}")).collect();
+    let pa: String = params.iter().map(|p| format!(" {p}")).collect();
+    let mut t = format!("/-- {doc} -/\ninductive Prog{pb} (β : Type) where\n  | ret (b : β)\n  | unreachable\n");
+    for (n, ps, r) in ctors {
+        let b: String = ps.iter().map(|(pn, pt)| format!(" ({} : {})", ident(pn), strip_parens(&w.lean_ty(pt)))).collect();
+        t.push_str(&format!("  | {}{b} (k : {} → Prog{pa} β)\n", ident(n), w.lean_ty(r)));
+    }
+    t.push_str(&format!(
+        "\n/-- sequencing: run the first program, then the second on its result (a call of a provided trait method, or of a closure that takes the tree) -/\ndef Prog.bind{pi} {{β γ : Type}} : Prog{pa} β → (β → Prog{pa} γ) → Prog{pa} γ\n  | .ret b, f => f b\n  | .unreachable, _ => .unreachable\n"
+    ));
+    for (n, ps, _) in ctors {
+        let args: String = ps.iter().map(|(pn, _)| format!(" {}", ident(pn))).collect();
+        t.push_str(&format!("  | .{}{args} k, f => .{}{args} (fun a => Prog.bind (k a) f)\n", ident(n), ident(n)));
+    }
+    t.push('\n');
+    t
 }
 
 pub fn strip_parens(s: &str) -> String {
@@ -342,7 +589,7 @@ pub fn impl_items(out: &mut Out, w: &mut World, info: &ImplInfo, env: &CfgEnv, h
                 }
                 let lean_rel = format!("{prefix}{}", ident(&name));
                 let req = required.contains(&lean_rel.as_str());
-                out.function(w, Plan { head: head.to_string(), rust_name: name, lean_rel, self_ty: self_ty.clone(), generics: generics.clone(), sig: &f.sig, block: &f.block, required: req, trunc_sub: false });
+                out.function(w, Plan { head: head.to_string(), rust_name: name, lean_rel, self_ty: self_ty.clone(), generics: generics.clone(), sig: &f.sig, block: &f.block, required: req, trunc_sub: false, ext: Default::default() });
             }
             ImplItem::Const(c) if env.enabled(&c.attrs)? => {
                 let name = c.ident.to_string();
@@ -369,7 +616,7 @@ pub fn free_fns(out: &mut Out, w: &mut World, items: &[Item], env: &CfgEnv, name
             }
             let req = required.contains(&name.as_str());
             let ts = trunc_sub.contains(&name.as_str());
-            out.function(w, Plan { head: String::new(), rust_name: name.clone(), lean_rel: ident(&name), self_ty: None, generics: HashMap::new(), sig: &f.sig, block: &f.block, required: req, trunc_sub: ts });
+            out.function(w, Plan { head: String::new(), rust_name: name.clone(), lean_rel: ident(&name), self_ty: None, generics: HashMap::new(), sig: &f.sig, block: &f.block, required: req, trunc_sub: ts, ext: Default::default() });
         }
     }
     Ok(())
